@@ -361,6 +361,56 @@ func genC16(r *rand.Rand, tier string, st *Stats) []Case {
 			}
 		}
 	}
+	// 4. long literals: the source is read through a 4096-byte buffered reader and the \x look-ahead peeks into
+	// it, so escapes are placed at every alignment relative to the 4096- and 8192-byte marks of the source (literals
+	// of 1000..2100 bytes, all-hex and mixed spellings, 0..3 raw characters in front to shift the alignment)
+	nl := 0
+	for _, total := range []int{1019, 1022, 1030, 2045, 2100} {
+		for shift := 0; shift < 4; shift++ {
+			for _, q := range []byte{'\'', '"'} {
+				for _, mixed := range []bool{false, true} {
+					var body strings.Builder
+					b := []byte{}
+					for j := 0; j < shift; j++ {
+						body.WriteByte('z')
+						b = append(b, 'z')
+					}
+					for j := 0; j < total; j++ {
+						v := byte('A' + (j*7+shift)%26)
+						if mixed && j%3 == 1 {
+							v = []byte{'\n', '\t', '\\', ' ', 'x', '4', '1', 7}[(j/3)%8]
+						}
+						sp := spellingsOf(v, q)
+						k := "hexupper"
+						if _, ok := sp[k]; !ok {
+							k = "hexlower"
+						}
+						if mixed {
+							keys := []string{}
+							for _, kk := range spellingKinds {
+								if _, ok := sp[kk]; ok {
+									keys = append(keys, kk)
+								}
+							}
+							k = keys[r.Intn(len(keys))]
+						}
+						body.WriteString(sp[k])
+						b = append(b, v)
+					}
+					if specDecode(body.String()) != string(b) {
+						panic("generator: spec decoder disagrees with a long spelling")
+					}
+					lit := string([]byte{q}) + body.String() + string([]byte{q})
+					id := fmt.Sprintf("long%d", nl)
+					nl++
+					cases = append(cases, litCase(id+".self", lit, string(b), string(b), "long"))
+					cases = append(cases, litCase(id+".emb", lit, "zz"+string(b)+"q", string(b), "long"))
+					cases = append(cases, tokCase(id+".tok", lit, "lit"))
+				}
+			}
+		}
+	}
+	st.Counts["long-literals"] = nl
 	return cases
 }
 
@@ -430,6 +480,25 @@ func genLex(r *rand.Rand, tier string, st *Stats) []Case {
 				cases = append(cases, tokCase(fmt.Sprintf("pair%d.%d", i, j), a+b, "pair"))
 				st.Counts["pairs"]++
 			}
+		}
+	}
+	// tokens and gaps longer than the 4096-byte read buffer of the lexer's bufio.Reader
+	for _, n := range []int{4095, 4096, 4097, 8193} {
+		for k, mk := range []func(int) string{
+			func(n int) string { return strings.Repeat("a", n) + " x" },
+			func(n int) string { return strings.Repeat("7", n) + " x" },
+			func(n int) string { return "'" + strings.Repeat("b", n) + "' x" },
+			func(n int) string { return "\"" + strings.Repeat("\\n", n/2) + "\" x" },
+			func(n int) string { return "@/" + strings.Repeat("a", n) + "/ x" },
+			func(n int) string { return strings.Repeat(" ", n) + "x" },
+			func(n int) string { return "--" + strings.Repeat("c", n) + "\nx" },
+			func(n int) string { return "-- " + strings.Repeat("'q' ", n/4) + "\nx" },
+			func(n int) string { return "--(" + strings.Repeat("c", n) + ")--x" },
+			func(n int) string { return strings.Repeat("(", n) },
+			func(n int) string { return strings.Repeat("ab 12 ", n/6) },
+		} {
+			cases = append(cases, tokCase(fmt.Sprintf("long%d.%d", n, k), "find all "+mk(n), "long"))
+			st.Counts["long-tokens"]++
 		}
 	}
 	// sources containing NUL bytes (the lexer treats NUL as end of input: quirk, modelled)
